@@ -339,81 +339,3 @@ def kf_replfault_silent_reader_kept(component, script, impl, problems):
         all(n in noack and f.get('during', 0) > 0 for n, f in watch)
 
 
-# ---- C06 / C07 (concurrency) ---------------------------------------------------------------------------------------------
-import re as _re
-
-
-def _single(script, impl):
-    """(script words, impl line) of a case that consists of exactly one operation line, else (None, None)"""
-    ops = [(s.split(), i or '') for s, i in zip(script, impl) if not s.startswith('#')]
-    return ops[0] if len(ops) == 1 else (None, None)
-
-
-_D19_ITEM = r'(dup:v\d+\.\d+\.x*|err-in-log:v\d+\.\d+\.x*|del:key-\d+\+\d+)'
-_D19_STRESS = _re.compile(r'^known KF-C06-rotating-append %s(,%s)*(,\+\d+-more)? ops=\d+ writeErrs=\d+ logRecords=\d+ walFiles=(?P<wf>\d+) flushes=\S+ sites=\d+( errs=\S+)?$' % (_D19_ITEM, _D19_ITEM))
-_D19_DET = ('known KF-C06-rotating-append err-in-log:v1-d19 putErr=true flushErr=false inMemory=false inLog=1 visibleAfterReopen=true',
-            'known KF-C06-rotating-append dup:v1-d19 putErr=false flushErr=false inMemory=true inLog=2 visibleAfterReopen=true')
-
-
-def kf_c06_rotating_append(component, script, impl, problems):
-    """D19: only on a sync-immediate log, only records of the rotation shape (checked by the harness: last record of a log file
-    repeated as the first of the next with seq+1 / last record of a file for a write that failed with ErrWALRotating), the
-    history itself linearizable, at least one rotation happened."""
-    if component != 'lin':
-        return False
-    ws, out = _single(script, impl)
-    if ws is None:
-        return False
-    if ws[0] == 'd19':
-        return out in _D19_DET
-    m = _D19_STRESS.match(out)
-    return bool(ws[0] == 'stress' and 'sync=immediate' in ws and m and int(m.group('wf')) >= 2)
-
-
-def _race_pairs(component, script, impl, field):
-    if component != 'race':
-        return None
-    ws, out = _single(script, impl)
-    if ws is None or ws[0] != 'race' or ('field=' + field) not in ws:
-        return None
-    m = _re.match(r'^race field=%s sites=(\S+)$' % _re.escape(field), out)
-    if not m:
-        return None
-    pairs = [tuple(p.split('|')) for p in m.group(1).split(';')]
-    return pairs if all(len(p) == 2 for p in pairs) else None
-
-
-_MU_SIDE = {'Manager.scheduleFlush', 'Manager.Put.func1', 'Manager.Delete.func1', 'Manager.ApplyBatch.func1', 'Manager.GetStorageStats',
-            'Manager.backgroundFlush'}
-
-
-def kf_c07_immutableMTs(component, script, impl, problems):
-    """D21: every reported pair has the flushMu side (FlushMemTables) against a site that holds only mu"""
-    pairs = _race_pairs(component, script, impl, 'immutableMTs')
-    return bool(pairs) and all('Manager.FlushMemTables' in p and (set(p) - {'Manager.FlushMemTables'}) <= _MU_SIDE and len(set(p)) == 2 for p in pairs)
-
-
-_TX_SIDE = {'TransactionImpl.Get', 'TransactionImpl.Put', 'TransactionImpl.Delete', 'TransactionImpl.NewIterator', 'TransactionImpl.NewRangeIterator'}
-_REG_SIDE = {'RegistryImpl.CleanupStaleTransactions', 'RegistryImpl.cleanupStaleTx'}
-
-
-def kf_c07_lastActiveTime(component, script, impl, problems):
-    """D22: registry cleanup (registry lock only) against a transaction method (tx.mu only)"""
-    pairs = _race_pairs(component, script, impl, 'lastActiveTime')
-    return bool(pairs) and all(len(set(p) & _REG_SIDE) == 1 and len(set(p) & _TX_SIDE) == 1 for p in pairs)
-
-
-def kf_c07_walPointer(component, script, impl, problems):
-    """D36: Manager.GetWAL (plain read under mu.RLock) against the atomic store in rotateWAL (inlined into FlushMemTables)"""
-    pairs = _race_pairs(component, script, impl, 'wal')
-    return bool(pairs) and all('Manager.GetWAL' in p and len(set(p) & {'Manager.rotateWAL', 'Manager.FlushMemTables'}) == 1 for p in pairs)
-
-
-def kf_c07_closeDuringFlush(component, script, impl, problems):
-    """D37: Manager.Close (no lock, does not wait for the flush goroutine) against the publication of a new table in flushMemTable"""
-    ws, out = _single(script, impl) if component == 'race' else (None, None)
-    if ws is not None and ws[0] == 'closeflush':   # deterministic companion: the old log is flushed only after Close returned
-        m = _re.match(r'^closeflush lost-at-close acked=(\d+) inLogWhenCloseReturned=0 inLogWhenFlushEnded=(\d+) closeErr=false$', out)
-        return bool(m and m.group(1) == m.group(2) and ('n=' + m.group(1)) in ws)
-    pairs = _race_pairs(component, script, impl, 'sstables')
-    return bool(pairs) and all(set(p) == {'Manager.Close', 'Manager.flushMemTable'} for p in pairs)
